@@ -778,8 +778,13 @@ func (c *Cursor) Max(ctx context.Context) error {
 	c.path = c.path[:len(c.path)-1]
 	for {
 		if len(node.Link) == 0 || node.Link[len(node.Link)-1] == nil {
+			last := len(node.Value) - 1
+			if last < 0 {
+				// entry-less top node of an empty tree: there is no entry to be at
+				last = 0
+			}
 			c.path = append(c.path,
-				pathEntry{node, len(node.Value) - 1})
+				pathEntry{node, last})
 			return nil
 		} else {
 			c.path = append(c.path,
